@@ -31,6 +31,7 @@ type stressRound struct {
 	FailEach int   `json:"failEach"` // every FailEach-th batch errors (0 = none)
 	Waves    int   `json:"waves"`    // the batches are released in this many groups
 	Repeat   bool  `json:"repeat"`   // ask the same payloads again (all served from the cache)
+	Cancel   bool  `json:"cancel"`   // the caller's context is cancelled once every batch is inside the pipeline; the pipeline finishes its calls normally
 	Seed     int64 `json:"-"`
 }
 
@@ -55,6 +56,10 @@ type barrierPipe struct {
 	waves   int
 	gates   []chan struct{}
 	fail    map[string]bool // work id of a batch's first payload -> the batch errors
+	// cancel rounds: called once every batch is inside the pipeline, before the first gate opens; the pipeline then
+	// ignores the cancelled context and answers normally
+	beforeRelease func()
+	ignoreCtx     bool
 }
 
 func (b *barrierPipe) CheckUpkeeps(ctx context.Context, ps ...common.UpkeepPayload) ([]common.CheckResult, error) {
@@ -69,6 +74,9 @@ func (b *barrierPipe) CheckUpkeeps(ctx context.Context, ps ...common.UpkeepPaylo
 	if b.arrived == b.total {
 		// every batch is inside the pipeline: release them wave by wave
 		go func() {
+			if b.beforeRelease != nil {
+				b.beforeRelease()
+			}
 			for _, g := range b.gates {
 				close(g)
 				time.Sleep(200 * time.Microsecond)
@@ -77,11 +85,16 @@ func (b *barrierPipe) CheckUpkeeps(ctx context.Context, ps ...common.UpkeepPaylo
 	}
 	gate := b.gates[wave]
 	failing := b.fail[ps[0].WorkID]
+	ignore := b.ignoreCtx
 	b.mu.Unlock()
-	select {
-	case <-gate:
-	case <-ctx.Done():
-		return nil, ctx.Err()
+	if ignore {
+		<-gate
+	} else {
+		select {
+		case <-gate:
+		case <-ctx.Done():
+			return nil, ctx.Err()
+		}
 	}
 	if failing {
 		return nil, fmt.Errorf("scripted batch failure")
@@ -164,8 +177,16 @@ func runStressRound(round int, cfg stressRound) []stressViolation {
 			err error
 		}
 		ch := make(chan ret, 1)
+		callCtx, callCancel := context.WithCancel(ctx)
+		defer callCancel()
+		if cfg.Cancel && what == "first call" {
+			pipe.mu.Lock()
+			pipe.ignoreCtx = true
+			pipe.beforeRelease = func() { callCancel(); time.Sleep(300 * time.Microsecond) }
+			pipe.mu.Unlock()
+		}
 		go func() {
-			res, err := rn.CheckUpkeeps(ctx, ps...)
+			res, err := rn.CheckUpkeeps(callCtx, ps...)
 			ch <- ret{res, err}
 		}()
 		var r ret
@@ -226,13 +247,20 @@ func TestC13Stress(t *testing.T) {
 		if r.Chance(1, 3) {
 			cfg.FailEach = []int{2, 3, 7, 1}[r.Intn(4)]
 		}
+		cfg.Cancel = r.Chance(1, 4)
+		if i == 1 {
+			cfg = stressRound{N: 640, Waves: 2, Cancel: true}
+		}
+		if i == 2 {
+			cfg = stressRound{N: 250, Waves: 1, Cancel: true, FailEach: 3}
+		}
 		if i == 0 {
 			cfg = stressRound{N: 1000, Waves: 1}
 		}
 		vs := runStressRound(i, cfg)
 		evals++
 		violations = append(violations, vs...)
-		keys[fmt.Sprintf("stress n=%d failEach=%d waves=%d repeat=%v", cfg.N, cfg.FailEach, cfg.Waves, cfg.Repeat)] = true
+		keys[fmt.Sprintf("stress n=%d failEach=%d waves=%d repeat=%v cancel=%v", cfg.N, cfg.FailEach, cfg.Waves, cfg.Repeat, cfg.Cancel)] = true
 		dist[fmt.Sprintf("n=%d", cfg.N)]++
 		dist[fmt.Sprintf("failEach=%d", cfg.FailEach)]++
 		if len(samples) < 2 {
